@@ -386,6 +386,21 @@ func c02Record(c *h.Ctx) error {
 			i++
 		}
 	}
+	// sizes: each of the three texts alone grown past the lengths at which a fixed-size buffer would run out (a NetBIOS
+	// domain has at most 15 characters, a DNS domain or a UPN has not) -- 15/16/17, 31/32/33, 64, 100 and 256 characters
+	for _, n := range []int{15, 16, 17, 31, 32, 33, 64, 100, 256} {
+		long := func(seedText string) string {
+			r := []rune{}
+			for len(r) < n {
+				r = append(r, []rune(seedText)...)
+			}
+			return string(r[:n])
+		}
+		scens = append(scens, scen{"user", long("corp.subsidiary.emea.example.com."), "Password", chal(i), chal(i + 3)})
+		scens = append(scens, scen{long("firstname.lastname-ж"), "corp", "Password", chal(i + 1), chal(i + 2)})
+		scens = append(scens, scen{"user", "CORP", long("correct horse battery staple é"), chal(i + 2), chal(i + 1)})
+		i += 3
+	}
 	rs := func(max int) string {
 		n := rng.Intn(max + 1)
 		r := make([]rune, n)
